@@ -557,7 +557,7 @@ class Beam(_Simu):
             options.extend(["N", "Ty", "Tz", "Mx", "My", "Mz"])
             options.extend(["Sxx", "Syy", "Szz", "Syz", "Sxz", "Sxy"])
 
-        options.extend(["Srain", "Stress"])
+        options.extend(["Strain", "Stress"])
 
         return options
 
@@ -640,18 +640,22 @@ class Beam(_Simu):
                 index = self._indexResult(result)
                 values = forces_np[:, :, index].mean(axis=1)  # (Ne,) element means
 
-        elif result in ["Sxx", "Syy", "Szz", "Syz", "Sxz", "Sxy"]:
+        elif result in ["Sxx", "Syy", "Szz", "Syz", "Sxz", "Sxy", "Stress"]:
             Epsilon_e_pg = self._Calc_Epsilon_e_pg(self.displacement)
             Sigma_e = self._Calc_Sigma_e_pg(Epsilon_e_pg).mean(1)
-            index = self._indexResult(result)
-            values = Sigma_e[:, index]
+            if result == "Stress":
+                values = Sigma_e
+            else:
+                index = self._indexResult(result)
+                values = Sigma_e[:, index]
 
-        elif result in ["ux'", "rx'", "ry'", "rz'"]:
-            coef = 1 if result == "Exx" else 1 / 2
-
+        elif result in ["ux'", "rx'", "ry'", "rz'", "Strain"]:
             Epsilon_e = self._Calc_Epsilon_e_pg(self.displacement).mean(1)
-            index = self._indexResult(result)
-            values = Epsilon_e[:, index] * coef
+            if result == "Strain":
+                values = Epsilon_e
+            else:
+                index = self._indexResult(result)
+                values = Epsilon_e[:, index]
 
         else:
             Terminal.MyPrintError(f"The result '{result}' is not implemented yet.")
@@ -668,7 +672,11 @@ class Beam(_Simu):
 
         dim = self.dim
 
-        if "ux" in result or "fx" in result:
+        if "'" in result:
+            # [ux', rx', ry', rz'] share the rows of the internal forces [N, Mx, My, Mz]
+            forces = {"ux'": "N", "rx'": "Mx", "ry'": "My", "rz'": "Mz"}
+            return self._indexResult(forces[result])
+        elif "ux" in result or "fx" in result:
             return 0
         elif ("uy" in result or "fy" in result) and dim >= 2:
             return 1
@@ -702,6 +710,18 @@ class Beam(_Simu):
             return 2 if dim == 2 else 4
         elif result == "Tz" and dim == 3 and self.useTimoshenko:
             return 5
+        elif result == "Sxx":
+            return 0
+        elif result == "Syy" and dim >= 2:
+            return 1
+        elif result == "Sxy" and dim >= 2:
+            return 2 if dim == 2 else 5
+        elif result == "Szz" and dim == 3:
+            return 2
+        elif result == "Syz" and dim == 3:
+            return 3
+        elif result == "Sxz" and dim == 3:
+            return 4
         else:
             raise ValueError("result error")
 
